@@ -148,6 +148,21 @@ def analyze_args(coeffs):
     return [hol_term.Int(int(lcm * c)) for c in _coeffs]
 
 
+def norm_eq_pt(t, expected, *convs) -> ProofTerm:
+    """Proof of t = expected, where expected is the normal form computed by eval (from_int_la / from_real_la):
+    both sides are brought to the same normal form by one of the given normalizing conversions."""
+    if t == expected:
+        return refl(t)
+    for cv in convs:
+        try:
+            pt1 = refl(t).on_rhs(cv)
+            pt2 = refl(expected).on_rhs(cv)
+        except Exception:
+            continue
+        if pt1.rhs == pt2.rhs:
+            return pt1.transitive(pt2.symmetric())
+    raise VeriTException("norm_la", "cannot prove %s = %s" % (t, expected))
+
 @register_macro("verit_norm_lia")
 class NormLIAMacro(Macro):
     def __init__(self):
@@ -161,7 +176,7 @@ class NormLIAMacro(Macro):
 
     def get_proof_term(self, args, prevs) -> ProofTerm:
         goal = args[0]
-        return verit_conv.norm_lia_conv().get_proof_term(goal)
+        return norm_eq_pt(goal, from_int_la(to_la(goal)), verit_conv.norm_lia_conv(), integer.int_norm_conv())
 
 
 
@@ -179,7 +194,7 @@ class NormLRAMacro(Macro):
 
     def get_proof_term(self, args, prevs) -> ProofTerm:
         goal = args[0]
-        return verit_conv.norm_lra_conv().get_proof_term(goal)
+        return norm_eq_pt(goal, from_real_la(to_la(goal)), verit_conv.norm_lra_conv(), real.real_norm_conv())
 
 
 def coeffs_gcd(sum_tm: hol_term.Term) -> int:
